@@ -29,7 +29,7 @@
 (*            (candidates, confirms, lastCheckpoint, active).              *)
 (*   candidate loops are in MC_Prefilter (they need variables).            *)
 (***************************************************************************)
-EXTENDS Integers, Sequences, FiniteSets
+EXTENDS Integers, Sequences, FiniteSets, TLC
 
 MinOf(S) == CHOOSE x \in S : \A y \in S : x <= y
 
@@ -58,6 +58,16 @@ PMatchLine(L, h, s) ==
   LET p == PFindLine(L, h, s) IN
   IF p = -1 THEN <<-1, -1>> ELSE <<p, p + Len(L[FirstLitAt(L, h, p)])>>
 
+\* The same two functions computed from one pass over the haystack, m[i+1] = FirstLitAt(L, h, i) (the generator uses
+\* these for speed and has TLC check on a sample of every literal set that they equal PMatch / PMatchLine)
+LitVec(L, h) == [i \in 1..Len(h) |-> FirstLitAt(L, h, i-1)]
+PMatchV(L, h, m, s) ==
+  LET S == {i \in s..Len(h)-1 : m[i+1] # 0} IN
+  IF S = {} THEN <<-1, -1>> ELSE LET p == MinOf(S) IN <<p, p + Len(L[m[p+1]])>>
+PMatchLineV(L, h, m, s) ==
+  LET S == {i \in s..Len(h)-1 : m[i+1] # 0 /\ AtLineStart(h, i)} IN
+  IF S = {} THEN <<-1, -1>> ELSE LET p == MinOf(S) IN <<p, p + Len(L[m[p+1]])>>
+
 IsDigit(b) == b >= 48 /\ b <= 57
 DigitFind(h, s) ==
   LET S == {i \in s..Len(h)-1 : IsDigit(h[i+1])} IN IF S = {} THEN -1 ELSE MinOf(S)
@@ -75,9 +85,9 @@ MkTeddy(L, kind, cfgfp, B, style) ==
   LET nb == TBuckets(kind, Len(L))
       fp == MinOf({cfgfp, MinLen(L), 4})
   IN [L |-> L, nb |-> nb, fp |-> fp, B |-> B, style |-> style, minlen |-> MinLen(L),
-      lo |-> [p \in 1..fp |-> [nib \in 0..15 |-> {(k-1) % nb : k \in {j \in 1..Len(L) : L[j][p] % 16 = nib}}]],
-      hi |-> [p \in 1..fp |-> [nib \in 0..15 |-> {(k-1) % nb : k \in {j \in 1..Len(L) : L[j][p] \div 16 = nib}}]],
-      pats |-> [b \in 0..nb-1 |-> {k \in 1..Len(L) : (k-1) % nb = b}]]
+      lo |-> TLCEval([p \in 1..fp |-> TLCEval([nib \in 0..15 |-> {(k-1) % nb : k \in {j \in 1..Len(L) : L[j][p] % 16 = nib}}])]),
+      hi |-> TLCEval([p \in 1..fp |-> TLCEval([nib \in 0..15 |-> {(k-1) % nb : k \in {j \in 1..Len(L) : L[j][p] \div 16 = nib}}])]),
+      pats |-> TLCEval([b \in 0..nb-1 |-> {k \in 1..Len(L) : (k-1) % nb = b}])]
 
 \* buckets that survive the two nibble look-ups of fingerprint position p for byte x
 ByteMask(c, p, x) == c.lo[p][x % 16] \cap c.hi[p][x \div 16]
